@@ -238,6 +238,11 @@ def validate_trace(module, cfg, trace_path, timeout=1200, env=None, heap="4g"):
     v = TraceVerdict()
     v.tlc = r
     if r.error or r.violated:
+        try:
+            shutil.copy(trace_path, "/dev/shm/last_failed_trace.ndjson")
+            open("/dev/shm/last_failed_tlc.out", "w").write(r.out)
+        except OSError:
+            pass
         raise ToolFailure("trace validation run failed (%s / %s):\n%s" % (module, r.violated, (r.error or r.out)[-3000:]))
     for m in re.finditer(r'^<<\s*"TRACE_(RESULT|REJ)"', r.out, flags=re.M):
         # values may be pretty-printed over several lines: parse from the match on
